@@ -6,7 +6,7 @@
 From Coq Require Import ZArith List Bool Lia Sorting.Permutation Sorting.Sorted.
 From RecordUpdate Require Import RecordUpdate.
 From SimVerif Require Import Model.Base Model.Env Model.FamEnv Model.RM Model.Maint Model.FloorTypes Model.Floor Model.FamFloor.
-From SimVerif Require Import Proofs.RMInv Proofs.EnvInv Proofs.EnvPause Proofs.FloorSteps Proofs.FloorInv Proofs.FloorSys Proofs.FloorProc Proofs.FloorFlow Proofs.FloorRes.
+From SimVerif Require Import Proofs.RMInv Proofs.EnvInv Proofs.EnvPause Proofs.FloorReach Proofs.FloorSteps Proofs.FloorInv Proofs.FloorSys Proofs.FloorProc Proofs.FloorFlow Proofs.FloorRes.
 Import ListNotations.
 Open Scope Z_scope.
 
@@ -61,6 +61,12 @@ Proof. exact release_if_idle_spec. Qed.
 Theorem C11_release_clears : forall nw w d, amem d (f_devs w) = true -> d_reserved (getd (release_reserved nw w d) d) = None.
 Proof. exact release_reserved_clears. Qed.
 
+(** the resource invariant in every reachable state of every well-formed scenario *)
+Theorem C11_always : forall sc s, reach_fl sc s -> HoldW (fst s).
+Proof. exact reach_hold. Qed.
+Theorem C11_usage_always : forall sc s m, reach_fl sc s -> usage (r_pools (f_rm (fst s))) m = hold_total (fst s) m.
+Proof. intros sc s m H. exact (hw_usage _ (reach_hold sc s H) m). Qed.
+
 Print Assumptions C11_usage_is_sum_of_holdings.
 Print Assumptions C11_invariant_event.
 Print Assumptions C11_invariant_call.
@@ -75,6 +81,8 @@ Print Assumptions C11_shutdown_keeps.
 Print Assumptions C11_release_when_idle.
 Print Assumptions C11_release_clears.
 
+Print Assumptions C11_always.
+Print Assumptions C11_usage_always.
 (** Non-vacuity: a world with one pool (capacity 16) and a processor requiring 8 of it satisfies the invariant
     before anything is reserved, and after the processor reserved. *)
 Definition c11_w0 : fw :=
